@@ -28,6 +28,9 @@ var msgConst = regexp.MustCompile(`(?:less than|<)\s*(\d+)`)
 
 func checkC16(c *Ctx) {
 	c.Decides("GF: each generator returns its size error exactly under the documented minimum (uniform/Yule/caterpillar: n<2, or n<3 when rooted; balanced: depth<1, or depth<2 when unrooted (2 tips cannot be unrooted); star: n<2; enumerator: n<3 unrooted, n<2 rooted), the constant in the guard is the one in its message, and no node/branch is created, grafted or re-rooted on a path where the guard would have fired")
+	c.Decides("NAMED: the generators name the tips they create: the number of nodes created by NewNode and given a name, per generator, is not lower than on the reference tree (reference count)")
+	c.namedCreations("NAMED", c.funcsInFiles("tree/treegen.go"), "exactly the requested number of uniquely named tips")
+	c.Floor("NAMED", 6)
 	c.Decides("TWIN-ARMS: in the generators a choice `if names are given { X.SetName(given) } else { Y.SetName(default) }` names the same node on both arms")
 	c.twinArms("TWIN-ARMS", c.funcsInFiles("tree/treegen.go"), "SetName", "labelled topologies exactly once")
 	c.Decides("PATH: every successful return passes ReinitIndexes (indexes ready for use); RerootFirst/UnRoot is called exactly when an unrooted tree is requested")
